@@ -7,6 +7,21 @@ import re
 
 HERE = os.path.dirname(os.path.dirname(os.path.abspath(__file__)))
 NEEDS = {
+    'C01-1': ('gradient_test normalised by 1+|f| instead of max(1,|f|)', 'a returned point whose function value is of order one (factor (1+|f|)/max(1,|f|) up to 2)'),
+    'C01-2': ('&& -> || in the status guard of solver_t::done', 'a line-search failure at a valid state whose gradient test is not satisfied'),
+    'C01-3': ('solver_status enumerators reordered so that the value-initialised status is converged', 'a run that ends without the terminal branch of done(): budget exhausted, or fallback to the previous state'),
+    'C02-1': ('penalty solvers store the inner (penalised) value and gradient instead of re-evaluating the objective', 'a constrained function and a returned point at which the penalty term is not exactly zero'),
+    'C02-2': ('FPBA accepts the serious step unconditionally (update instead of update_if_better)', 'a Nesterov momentum point worse than the best point found so far when the run ends'),
+    'C02-3': ('OSGA selects best point and best value through two different comparisons', 'both trial points of one iteration improve on the incumbent, the second being worse than the first, and the run ends before a later improvement'),
+    'C03-1': ('ellipsoid centre update uses the already updated shape matrix', 'minimiser close to the boundary of the initial ball (tight solver::ellipsoid::R)'),
+    'C03-2': ('bundle stopping tolerance scaled by sqrt(bundle size) instead of sqrt(dimension)', 'more than 4n points in the bundle when the criterion fires (n <= 3, large bundle::max_size) and a gap in the window'),
+    'C03-3': ('curve search pre-scales epsilon by sqrt(N) before the bundle scales it again', 'n >= 5 and a true gap in (2 eps sqrt(n), eps n]'),
+    'C05-1': ('augmented-Lagrangian feasibility test compares against epsilon0 instead of epsilon', 'solver::epsilon below solver::augmented::epsilon0 (non-default)'),
+    'C05-2': ('feasibility test made relative to max(1,|x|_inf)', 'a solution outside the unit box and a violation in (eps, eps |x|_inf]'),
+    'C05-3': ('augmented-Lagrangian value shifted by -miu_i^2/(2 ro) per inequality', 'an inequality constraint with a non-zero multiplier'),
+    'C19-1': ('solver copy constructor re-creates the line-search objects from their ids instead of cloning them', 'a solver given a line-search object with non-default parameters, then clone()'),
+    'C19-2': ('integer parameters parse strings through std::stod', 'an integer parameter whose domain extends past 2^53, assigned through the string overload'),
+    'C19-3': ('integer range update checks the domain on the incoming double before converting', 'a non-integral float within one unit of a strict bound'),
     'C07-1': ('More-Thuente stage switch loses its slope condition (g >= 0)', 'c1 > 0.5 with c2 just above it and a short first step; every default and every unit test uses c1 <= 0.5'),
     'C07-2': ('descent guard rewritten so that a NaN slope passes', 'a direction whose slope <g,d> is NaN (NaN component, inf - inf)'),
     'C07-3': ('backtracking safeguard bounds rewritten: lower clamp bound becomes 0', 'interpolation returning exactly 0 (overflowing secant slope on a very steep objective)'),
